@@ -152,6 +152,9 @@ def run_check(prop, module, tier, seed, level, technique_note):
     kn = [o for o in viol if o["key"] in known_keys]
     evdir = os.path.join(VERIF, "evidence")
     os.makedirs(os.path.join(evdir, "replay"), exist_ok=True)
+    import glob as _glob
+    for old_rp in _glob.glob(os.path.join(evdir, "replay", "%s-*.json" % prop)):
+        os.remove(old_rp)      # replay files describe this run only
     for k, o in enumerate(kn):
         print("KNOWN-FINDING: property=%s %s [%s]" % (prop, known_keys[o["key"]].get("what", o["detail"]), o["key"]))
     replay_paths = []
